@@ -174,6 +174,11 @@ func genLayout(r *rand.Rand, keyProfile string, maxFlush, maxPer int) layoutSpec
 	ls.L0 = 1 + r.Intn(3)
 	ls.Ratio = 1 + r.Intn(3)
 	nf := 2 + r.Intn(maxFlush-1)
+	if r.Intn(6) == 0 {
+		// a wide L0: many overlapping tables merged by one compaction
+		ls.L0 = []int{5, 8, 9, 12}[r.Intn(4)]
+		nf = ls.L0 + 1 + r.Intn(3)
+	}
 	nextTs := uint64(1)
 	var all []vEntry
 	for f := 0; f < nf; f++ {
